@@ -376,18 +376,19 @@ pub fn check_cmd(args: CheckArgs) -> i32 {
         // 3. K+ and cover counts (coordinator, builder role)
         let (kp, kp_fail) = kplus(&corpus);
         let n_kplus = kp.iter().filter(|&&b| b).count();
-        let mut cover_bases: Vec<(&Entry, bool)> = corpus.k0.iter().map(|e| (e, true)).collect();
+        let kmax = if tier == Tier::Thorough { 3 } else { 2 };
+        let mut cover_bases: Vec<(&Entry, bool, usize)> = corpus.k0.iter().map(|e| (e, true, kmax)).collect();
         for (gi, e) in corpus.g.iter().enumerate() {
             // covers of the 5- and 6-chamber extras only in the thorough tier
             if gi >= corpus.extra_from && tier != Tier::Thorough {
                 continue;
             }
             if kp[gi] || census_g[gi].interesting() {
-                cover_bases.push((e, kp[gi]));
+                // the 5- to 7-chamber extras: covers with <= 2 sheets only
+                cover_bases.push((e, kp[gi], if gi >= corpus.extra_from { 2 } else { kmax }));
             }
         }
-        let kmax = if tier == Tier::Thorough { 3 } else { 2 };
-        let cover_counts = CoverCounts::compute(&cover_bases, kmax);
+        let cover_counts = CoverCounts::compute(&cover_bases);
         println!(
             "census: {} generated symbols ({} pass the invariant filter, {} reach simplify), K0 = {}, K+ = {} (instrument failures {}), cover bases = {}",
             corpus.g.len(),
